@@ -80,16 +80,40 @@ func ruleC10(c *Ctx) {
 		sites = append(sites, AnyCallsTo(fn, fRep+"writeRevisionCounter", fRep+"readRevisionCounter")...)
 		for i, s := range sites {
 			key := fmt.Sprintf("%s | revision state access[%d]", FnName(fn), i)
+			underLock := func(f *ssa.Function, site ssa.Instruction) []Witness {
+				FR := NewRenderer(f)
+				return Query{Fn: f, IsSite: func(in ssa.Instruction) bool { return in == site },
+					Gen: func(in ssa.Instruction) bool {
+						return isPlainCall(in) && callMatches(in, "(*sync.Mutex).Lock") && strings.HasSuffix(FR.V(in.(*ssa.Call).Call.Args[0]), ".revisionLock")
+					},
+					Kill: func(in ssa.Instruction) bool { return isPlainCall(in) && callMatches(in, "(*sync.Mutex).Unlock") }}.Run()
+			}
 			if !allowed[FnName(fn)] {
-				c.Bad(rule, key, c.P.InstrPos(s), "revision cache / counter file accessed outside the revision-counter API", nil)
+				// a helper introduced later is part of the API when it is called only by the API,
+				// with revisionLock held at every call
+				okHelper := isFreshFn(fn) && fn.Parent() == nil
+				ncallers := 0
+				if okHelper {
+					if node := c.P.CG.Nodes[fn]; node != nil {
+						for _, e := range node.In {
+							if e.Caller == nil || e.Caller.Func == nil || e.Site == nil {
+								continue
+							}
+							ncallers++
+							if !allowed[FnName(e.Caller.Func)] || len(underLock(e.Caller.Func, e.Site)) > 0 {
+								okHelper = false
+							}
+						}
+					}
+				}
+				if okHelper && ncallers > 0 {
+					c.OK(rule, key+" | helper of the API, called under revisionLock", c.P.InstrPos(s), fmt.Sprintf("%d call sites, all in the revision-counter API with revisionLock held", ncallers), true)
+				} else {
+					c.Bad(rule, key, c.P.InstrPos(s), "revision cache / counter file accessed outside the revision-counter API", nil)
+				}
 				continue
 			}
-			// held: for stores use the nearest preceding call in the block? use path query instead
-			ws := Query{Fn: fn, IsSite: func(in ssa.Instruction) bool { return in == s },
-				Gen: func(in ssa.Instruction) bool {
-					return isPlainCall(in) && callMatches(in, "(*sync.Mutex).Lock") && strings.HasSuffix(NewRenderer(fn).V(in.(*ssa.Call).Call.Args[0]), ".revisionLock")
-				},
-				Kill: func(in ssa.Instruction) bool { return isPlainCall(in) && callMatches(in, "(*sync.Mutex).Unlock") }}.Run()
+			ws := underLock(fn, s)
 			if len(ws) == 0 {
 				c.OK(rule, key+" | under revisionLock", c.P.InstrPos(s), "revisionLock acquired on every path and not released before the access", true)
 			} else {
@@ -109,27 +133,51 @@ func ruleC10(c *Ctx) {
 			continue
 		}
 		R := NewRenderer(fn)
-		wr := CallsTo(fn, fRep+"writeRevisionCounter")
-		st := StoresTo(fn, "Replica", "revisionCache")
-		if len(wr) != 1 || len(st) != 1 {
+		wr := CallsToW(fn, fRep+"writeRevisionCounter")
+		if len(wr) != 1 {
 			c.Bad(rule, spec.fn+" | persist then cache", "", "expected one writeRevisionCounter and one store of revisionCache", nil)
 			continue
 		}
-		if got := callRender(R, wr[0]); got != fRep+"writeRevisionCounter($0,"+spec.arg+")" {
+		// the write and the cache update are in fn, or both in one helper that wraps the write
+		exec, ER := fn, R
+		var outerArgs []string
+		if h, _ := wrapperInner(wr[0], fRep+"writeRevisionCounter"); h != nil {
+			exec, ER = h, NewRenderer(h)
+			outerArgs = callArgs(R, wr[0].(ssa.CallInstruction))
+		}
+		inFn := func(s string) string {
+			if outerArgs != nil {
+				return substParams(s, outerArgs)
+			}
+			return s
+		}
+		st := StoresTo(exec, "Replica", "revisionCache")
+		if len(st) != 1 {
+			c.Bad(rule, spec.fn+" | persist then cache", "", "expected one writeRevisionCounter and one store of revisionCache", nil)
+			continue
+		}
+		if got := renderVia(R, wr[0], fRep+"writeRevisionCounter"); got != fRep+"writeRevisionCounter($0,"+spec.arg+")" {
 			c.Bad(rule, spec.fn+" | persisted value", c.P.InstrPos(wr[0]), "persists "+got+", expected "+spec.arg, nil)
 		} else {
 			c.OK(rule, spec.fn+" | persisted value", c.P.InstrPos(wr[0]), "writeRevisionCounter("+spec.arg+")", false)
 		}
-		if got := R.V(st[0].(*ssa.Store).Val); got != spec.arg {
+		if got := inFn(ER.V(st[0].(*ssa.Store).Val)); got != spec.arg {
 			c.Bad(rule, spec.fn+" | cached value == persisted value", c.P.InstrPos(st[0]), "cache receives "+got+" but "+spec.arg+" was persisted", nil)
 		} else {
 			c.OK(rule, spec.fn+" | cached value == persisted value", c.P.InstrPos(st[0]), "same value", false)
 		}
-		c.Guard(rule, fn, st, "update cache", nil, okcall(fRep+"writeRevisionCounter"))
-		c.Guard(rule, fn, nilErrorReturns(fn), "return nil", nil, okcall(fRep+"writeRevisionCounter"))
+		c.Guard(rule, exec, st, "update cache", nil, okcall(fRep+"writeRevisionCounter"))
+		c.Guard(rule, exec, nilErrorReturns(exec), "return nil", nil, okcall(fRep+"writeRevisionCounter"))
+		if exec != fn {
+			if ws := successNotVia(fn, wr[0]); len(ws) == 0 {
+				c.OK(rule, spec.fn+" | success only through "+FnName(exec), c.P.InstrPos(wr[0]), "every success return forwards or follows the helper's success", true)
+			} else {
+				c.Bad(rule, spec.fn+" | success only through "+FnName(exec), c.P.InstrPos(wr[0]), "a success return is reachable without the counter having been persisted", c.witness(ws[0]))
+			}
+		}
 	}
 	if fn := c.Anchor(rule, fRep+"SetRevisionCounter"); fn != nil {
-		c.Guard(rule, fn, CallsTo(fn, fRep+"writeRevisionCounter"), "set counter", nil, atom("mode == RW", eqAtom(`"RW"`, "$0.mode")))
+		c.Guard(rule, fn, CallsToW(fn, fRep+"writeRevisionCounter"), "set counter", nil, atom("mode == RW", eqAtom(`"RW"`, "$0.mode")))
 	}
 	// the persisted block is a function of the counter alone: the buffer handed to the file is
 	// created (zero-filled) by this call, never state that survives from an earlier write
@@ -534,21 +582,71 @@ func ruleC16Repl(c *Ctx) {
 	sz := "phi{0 | as<int64>($1) | github.com/docker/go-units.RAMInBytes(as<string>($1))#0}"
 	grow := "-$0.info.Size +" + sz + " >=0"
 	tr := CallsTo(fn, "syscall.Truncate")
+	// the truncation loop: in Resize, or in a helper that is handed the chain and the size
+	var via ssa.Instruction
+	var viaH *ssa.Function
+	var viaArgs []string
+	if len(tr) == 0 {
+		eachInstr(fn, func(in ssa.Instruction) {
+			cl, ok := in.(*ssa.Call)
+			if !ok || via != nil {
+				return
+			}
+			h := cl.Call.StaticCallee()
+			if h == nil || h.Blocks == nil || !isJivaFn(h) || h == fn || len(CallsTo(h, "syscall.Truncate")) != 1 {
+				return
+			}
+			via, viaH, viaArgs = in, h, callArgs(R, cl)
+		})
+	}
 	var sites []ssa.Instruction
 	sites = append(sites, tr...)
+	if via != nil {
+		sites = append(sites, via)
+	}
 	sites = append(sites, StoresTo(fn, "Info", "Size")...)
 	sites = append(sites, StoresTo(fn, "diffDisk", "location")...)
 	c.Guard(rule, fn, sites, "grow", lockOrUnlock, atom("new size >= current size", grow), needWLock("replica lock taken"))
-	if len(tr) == 1 && callRender(R, tr[0]) == "syscall.Truncate("+fRep+"diskPath($0,"+fRep+"Chain($0)#0[*]),"+sz+")" {
-		c.OK(rule, FnName(fn)+" | every chain member truncated to the new size", c.P.InstrPos(tr[0]), "range over Chain()", false)
-	} else {
-		c.Bad(rule, FnName(fn)+" | every chain member truncated to the new size", "", "Truncate is not applied to every member of r.Chain() with the new size", nil)
-	}
-	// nothing is recorded in memory before every chain file was truncated successfully
+	wantTr := "syscall.Truncate(" + fRep + "diskPath($0," + fRep + "Chain($0)#0[*])," + sz + ")"
 	var mem []ssa.Instruction
 	mem = append(mem, StoresTo(fn, "Info", "Size")...)
 	mem = append(mem, StoresTo(fn, "diffDisk", "location")...)
-	c.Guard(rule, fn, mem, "record new size in memory", nil, atom("every chain member truncated", "+* -len("+fRep+"Chain($0)#0) >=0"))
+	switch {
+	case len(tr) == 1 && callRender(R, tr[0]) == wantTr:
+		c.OK(rule, FnName(fn)+" | every chain member truncated to the new size", c.P.InstrPos(tr[0]), "range over Chain()", false)
+		// nothing is recorded in memory before every chain file was truncated successfully
+		c.Guard(rule, fn, mem, "record new size in memory", nil, atom("every chain member truncated", "+* -len("+fRep+"Chain($0)#0) >=0"))
+	case via != nil:
+		HR := NewRenderer(viaH)
+		htr := CallsTo(viaH, "syscall.Truncate")[0]
+		if got := substParams(callRender(HR, htr), viaArgs); got == wantTr {
+			c.OK(rule, FnName(fn)+" | every chain member truncated to the new size", c.P.InstrPos(htr), "range over Chain() in "+FnName(viaH), false)
+		} else {
+			c.Bad(rule, FnName(fn)+" | every chain member truncated to the new size", c.P.InstrPos(htr), "helper truncates "+got, nil)
+		}
+		// the helper reports success only after the whole list, and never after a failed truncate
+		listArg := -1
+		for k, a := range viaArgs {
+			if a == fRep+"Chain($0)#0" {
+				listArg = k
+			}
+		}
+		c.Guard(rule, viaH, successReturns(viaH), "helper success", nil, atom("every chain member truncated", fmt.Sprintf("+* -len($%d) >=0", listArg)))
+		hq := Query{Fn: viaH, Start: htr, GenEdge: successEdgesOfCall(viaH, htr), IsSite: func(in ssa.Instruction) bool {
+			for _, r := range successReturns(viaH) {
+				if r == in {
+					return true
+				}
+			}
+			return false
+		}}
+		if ws := hq.Run(); len(ws) > 0 {
+			c.Bad(rule, FnName(viaH)+" | failed truncate is an error", c.P.InstrPos(htr), "the helper can report success after a failed truncate", c.witness(ws[0]))
+		}
+		c.Guard(rule, fn, mem, "record new size in memory", nil, Need{Desc: "every chain member truncated (success of " + FnName(viaH) + ")", Edge: successEdgesOfCall(fn, via)})
+	default:
+		c.Bad(rule, FnName(fn)+" | every chain member truncated to the new size", "", "Truncate is not applied to every member of r.Chain() with the new size", nil)
+	}
 	enc := CallsTo(fn, fRep+"encodeToFile")
 	stSize := StoresTo(fn, "Info", "Size")
 	stLoc := StoresTo(fn, "diffDisk", "location")
